@@ -40,6 +40,7 @@ partial def parseVal (s : List Char) : Option Val :=
   | 'f' :: r => (unhexS (String.ofList r)).map Val.num
   | 's' :: r => (unhexS (String.ofList r)).map Val.str
   | ['R', 'E'] => some .richErr
+  | 'D' :: r => (unhexS (String.ofList r)).map (fun t => Val.dur t 0)
   | 'T' :: r =>
     match (String.ofList r).splitOn ";" with
     | [n, t, nf] =>
